@@ -129,6 +129,7 @@ package prefilter
 //@   loop 1: invariant 0 <= accumulatedOffset && accumulatedOffset < len(haystack) && (pos == -1 || (0 <= pos && accumulatedOffset + pos < len(haystack))) && 0 <= start && sameslice(haystack, old(haystack)[start:])
 //@   loop 1: decreases len(haystack) - accumulatedOffset
 //@   loop 2: invariant 0 <= accumulatedOffset && accumulatedOffset < len(haystack) && 0 <= pos && accumulatedOffset + pos < len(haystack) && 0 <= start && sameslice(haystack, old(haystack)[start:])
+//@   loop 2: invariant bestID == -1 || (0 <= bestID && bestID < len(t.patterns) && occAt(haystack, t.patterns[bestID], accumulatedOffset + pos))
 //@   loop 2: decreases bucketMask
 
 // ---- Fat Teddy (16 buckets): same contracts ----
@@ -198,6 +199,7 @@ package prefilter
 //@   loop 1: invariant 0 <= accumulatedOffset && accumulatedOffset < len(haystack) && (pos == -1 || (0 <= pos && accumulatedOffset + pos < len(haystack))) && 0 <= start && sameslice(haystack, old(haystack)[start:])
 //@   loop 1: decreases len(haystack) - accumulatedOffset
 //@   loop 2: invariant 0 <= accumulatedOffset && accumulatedOffset < len(haystack) && 0 <= pos && accumulatedOffset + pos < len(haystack) && 0 <= start && sameslice(haystack, old(haystack)[start:])
+//@   loop 2: invariant bestID == -1 || (0 <= bestID && bestID < len(t.patterns) && occAt(haystack, t.patterns[bestID], accumulatedOffset + pos))
 //@   loop 2: decreases bucketMask
 
 // ---- Aho-Corasick prefilter: external automaton, contract ASSUMED (coregx/ahocorasick) ----
